@@ -44,12 +44,16 @@ type plan struct {
 	Flavor string     `json:"flavor"`
 	Steps  []planStep `json:"steps"`
 	Mask   []bool     `json:"mask,omitempty"` // steps kept after shrinking (nil: all)
+	// Late: new contracts are not confirmed at once, only by a later "mine" / "expire" step
+	Late bool `json:"late,omitempty"`
+	// Settings: the host settings variant of this scenario ("" = default)
+	Settings string `json:"settings,omitempty"`
 }
 
 var kindMuts = map[string][]string{
 	"append": appendMuts, "free": freeMuts, "fund": fundMuts, "replenish-accounts": replMuts, "replenish-pools": replMuts,
 	"roots": rootsMuts, "latest": latestMuts, "settings": nil, "renew": renewMuts, "refresh-full": refreshMuts,
-	"refresh-partial": refreshMuts, "form": formMuts, "expire": nil,
+	"refresh-partial": refreshMuts, "form": formMuts, "expire": nil, "mine": nil, "switch": nil,
 }
 
 var revisingKinds = []string{"roots", "append", "free", "fund", "replenish-accounts", "replenish-pools", "refresh-full", "refresh-partial", "renew"}
@@ -57,13 +61,36 @@ var revisingKinds = []string{"roots", "append", "free", "fund", "replenish-accou
 // the RPCs in which the renter answers the host's intermediate response
 var twoPhaseKinds = []string{"append", "free", "replenish-accounts", "replenish-pools", "refresh-partial", "refresh-full", "renew"}
 
+// host settings variants (parameter spread): prices zero / 1 H / high, tight and zero limits
+var settingsVariants = []string{"", "", "", "free", "one-hasting", "dear", "tight", "zero-collateral-limit"}
+
+func applySettings(base proto4.HostSettings, variant string) proto4.HostSettings {
+	s := base
+	one := types.NewCurrency64(1)
+	switch variant {
+	case "free":
+		s.Prices = proto4.HostPrices{}
+	case "one-hasting":
+		s.Prices = proto4.HostPrices{ContractPrice: one, StoragePrice: one, IngressPrice: one, EgressPrice: one, FreeSectorPrice: one, Collateral: one}
+	case "dear":
+		s.Prices = proto4.HostPrices{ContractPrice: types.Siacoins(5), StoragePrice: types.NewCurrency64(100000000000000), IngressPrice: types.NewCurrency64(100000000000000),
+			EgressPrice: types.NewCurrency64(100000000000000), FreeSectorPrice: types.Siacoins(1), Collateral: types.NewCurrency64(200000000000000)}
+	case "tight":
+		s.MaxCollateral = types.Siacoins(40)
+		s.MaxContractDuration = 250
+	case "zero-collateral-limit":
+		s.MaxCollateral = types.ZeroCurrency
+	}
+	return s
+}
+
 type weighted struct {
 	kind string
 	w    int
 }
 
 var stepWeights = []weighted{{"append", 22}, {"free", 14}, {"fund", 14}, {"replenish-accounts", 10}, {"replenish-pools", 8},
-	{"roots", 12}, {"latest", 5}, {"settings", 2}, {"renew", 4}, {"refresh-full", 3}, {"refresh-partial", 3}, {"form", 2}}
+	{"roots", 12}, {"latest", 5}, {"settings", 2}, {"renew", 4}, {"refresh-full", 3}, {"refresh-partial", 3}, {"form", 3}, {"mine", 3}, {"switch", 3}}
 
 func makePlan(seed uint64, nsteps int) plan {
 	r := rng.New(seed ^ 0xC08C08)
@@ -77,6 +104,12 @@ func makePlan(seed uint64, nsteps int) plan {
 		p.Flavor = "short"
 	default:
 		p.Flavor = "closed"
+	}
+	r2 := rng.New(seed ^ 0x5E77)
+	p.Late = r2.Chance(1, 4)
+	p.Settings = settingsVariants[r2.Intn(len(settingsVariants))]
+	if p.Settings == "zero-collateral-limit" && r2.Chance(1, 2) {
+		p.Settings = "" // (no contract can be formed under it: keep it rare)
 	}
 	total := 0
 	for _, sw := range stepWeights {
@@ -101,7 +134,9 @@ func makePlan(seed uint64, nsteps int) plan {
 			}
 		}
 		mut := "none"
-		if ms := kindMuts[kind]; len(ms) > 0 && (r.Chance(9, 20) || kind == "form") && !(i < 2 && kind == "append") {
+		if kind == "form" && r.Chance(1, 2) {
+			// a second live contract of the same renter (mix): later steps "switch" between them
+		} else if ms := kindMuts[kind]; len(ms) > 0 && (r.Chance(9, 20) || kind == "form") && !(i < 2 && kind == "append") {
 			mut = ms[r.Intn(len(ms))]
 		}
 		ps := planStep{Kind: kind, Mut: mut}
@@ -135,12 +170,15 @@ func runPlan(w *world, p plan) *scenResult {
 	runCounter++
 	sc := newScen(w, p.Seed*1000003+runCounter)
 	closed := p.Flavor == "closed"
-	if closed {
+	base := w.set
+	w.set = applySettings(base, p.Settings)
+	defer func() { w.set = base; w.sr.Update(base) }()
+	{
 		s := w.set
-		s.AcceptingContracts = false
+		s.AcceptingContracts = !closed
 		w.sr.Update(s)
-		defer w.sr.Update(w.set)
 	}
+	sc.late = p.Late
 	for i, st := range p.Steps {
 		if p.Mask != nil && !p.Mask[i] {
 			continue
@@ -175,9 +213,30 @@ func (sc *scen) stepX(st planStep, flavor string, inner bool) {
 			}
 			if goal > tip {
 				w.mine(int(goal - tip))
+				sc.afterMine("expire")
 			}
 			sc.steps = append(sc.steps, stepLog{Kind: "expire", Mut: st.Mut, Verdict: "-",
 				Detail: fmt.Sprintf("tip %d, proof height %d", w.cm.Tip().Height, sc.cur.rev.ProofHeight)})
+		}
+		return
+	}
+	switch st.Kind {
+	case "mine":
+		w.mine(1)
+		sc.afterMine("mine")
+		sc.steps = append(sc.steps, stepLog{Kind: "mine", Mut: "none", Verdict: "-"})
+		return
+	case "switch":
+		// continue on another live contract of this renter
+		var live []*ctr
+		for _, c := range sc.cts {
+			if !c.renewed && c != sc.cur {
+				live = append(live, c)
+			}
+		}
+		if len(live) > 0 {
+			sc.cur = live[sc.r.Intn(len(live))]
+			sc.steps = append(sc.steps, stepLog{Kind: "switch", Mut: "none", Verdict: "-", Detail: fmt.Sprintf("to contract %d", sc.cur.abs)})
 		}
 		return
 	}
@@ -205,6 +264,10 @@ func (sc *scen) stepX(st planStep, flavor string, inner bool) {
 			n0 = w.rec.ncalls() // what follows is the outer RPC's
 		}
 	}
+	isCut := strings.HasPrefix(st.Mut, "cut-")
+	if isCut {
+		w.cut = st.Mut
+	}
 	var o *outcome
 	switch st.Kind {
 	case "form":
@@ -231,17 +294,36 @@ func (sc *scen) stepX(st planStep, flavor string, inner bool) {
 		panic("unknown step kind " + st.Kind)
 	}
 	w.mid = nil
+	w.cut = ""
+	if innerRan && st.Inner.Kind == "expire" {
+		// blocks arrived between the two phases: the request is exported with the tip the
+		// host sees when it has the renter's signature (the model has one height per request)
+		t2, _ := w.ec.Tip()
+		height = t2.Height
+	}
+	if o.validate != nil && (strings.HasPrefix(st.Mut, "form-") || strings.HasPrefix(st.Mut, "ren-") || strings.HasPrefix(st.Mut, "coll-")) {
+		// whether a parameter is out of range depends on the host's settings and prices
+		// of this scenario: core's own validation of the request is the ground truth
+		o.mustReject = o.validate() != nil
+	}
+	if isCut {
+		// the host has everything it needs when only its last answer is not read: a
+		// single-round request that was sent in full, or a second message that was
+		oneRoundKind := st.Kind == "fund" || st.Kind == "roots" || st.Kind == "latest" || st.Kind == "settings"
+		if st.Mut == "cut-before-final" || (st.Mut == "cut-after-request" && oneRoundKind) {
+			o.mustReject = false
+		}
+	}
 	if o.ct != nil && st.Kind != "latest" && st.Kind != "form" && height >= o.ct.rev.ProofHeight {
 		o.mustReject = true // the proof window of the named contract is open
 	}
-	var les []logEntry
+	var diag string
 	if inner {
 		o.mustReject = true // the contract is locked by the RPC that is waiting for its second message
-		les = w.takeFinished()
+		diag = w.takeFinished()
 	} else {
-		les = w.quiesce()
+		diag = w.quiesce()
 	}
-	verdict := classify(o.err, les)
 	calls := w.rec.since(n0)
 	var ok []call
 	for _, c := range calls {
@@ -249,7 +331,13 @@ func (sc *scen) stepX(st planStep, flavor string, inner bool) {
 			ok = append(ok, c)
 		}
 	}
-	if verdict == "VOk" && len(ok) == 0 {
+	// the outcome, by structure: the Contractor stored something / the renter was
+	// served without anything being stored / the renter was refused
+	verdict := "VInvalid"
+	switch {
+	case len(ok) > 0:
+		verdict = "VOk"
+	case o.err == nil:
 		verdict = "VOkNoRev"
 	}
 	where := fmt.Sprintf("%s/%s", o.kind, o.mut)
@@ -282,16 +370,6 @@ func (sc *scen) stepX(st planStep, flavor string, inner bool) {
 	}
 	if verdict == "VOk" && o.mustReject {
 		sc.failf("c08-corrupted-request-accepted", "%s: RPC succeeded", where)
-	}
-	if strings.HasPrefix(verdict, "V?") {
-		// a refusal whose text the harness does not know: the kind of a refusal is
-		// not compared (the property leaves it free), only that it is one
-		sc.unclassified++
-		if o.err == nil {
-			verdict = "VOk"
-		} else {
-			verdict = "VInvalid"
-		}
 	}
 
 	// ---- ground truth update
@@ -342,15 +420,15 @@ func (sc *scen) stepX(st planStep, flavor string, inner bool) {
 	} else if o.mustReject {
 		sc.rejectedCorrupt++
 	}
-	// a new contract is confirmed before anything else happens
+	// a new contract is confirmed before anything else happens, unless the scenario
+	// leaves that to a later block (RPCs on a contract that is not on chain yet)
 	if len(ok) > 0 && (ok[0].Kind == "add" || ok[0].Kind == "renew") {
-		w.mine(1)
-		sc.cur.confirmed = true
-		_, fce, err := w.ec.V2FileContractElement(sc.cur.id)
-		if err != nil {
-			sc.failf("c08-new-contract-not-confirmed", "%s: contract %d is not on chain after a block: %v", where, sc.cur.abs, err)
-		} else if fce.V2FileContract != sc.cur.rev {
-			sc.failf("c08-new-contract-not-confirmed", "%s: the confirmed contract %d differs from the one the host stored", where, sc.cur.abs)
+		if ok[0].Kind == "add" && len(sc.cts) > 1 {
+			sc.second++
+		}
+		if !sc.late {
+			w.mine(1)
+			sc.afterMine(where)
 		}
 	}
 
@@ -359,11 +437,7 @@ func (sc *scen) stepX(st planStep, flavor string, inner bool) {
 		if w.ss.nwrites() != sw0 {
 			sc.failf("c08-rejected-request-changed-state", "%s (%s): the sector store was written", where, verdict)
 		}
-		detail := ""
-		if len(les) > 0 {
-			detail = les[len(les)-1].Err
-		}
-		sc.steps = append(sc.steps, stepLog{Kind: "interleaved:" + o.kind, Mut: o.mut, Verdict: verdict, Detail: detail})
+		sc.steps = append(sc.steps, stepLog{Kind: "interleaved:" + o.kind, Mut: o.mut, Verdict: verdict, Detail: diag})
 		return
 	}
 
@@ -408,12 +482,13 @@ func (sc *scen) stepX(st planStep, flavor string, inner bool) {
 	if o.obsPrices != "" {
 		obsPrices = o.obsPrices
 	}
-	sc.trace = append(sc.trace, fmt.Sprintf("(mk_req %d %d %s, mk_obs %s %s %s)", absNow, height, o.term, verdict, obsRev, obsPrices))
-	detail := ""
-	if len(les) > 0 {
-		detail = les[len(les)-1].Err
+	if isCut && len(ok) == 0 {
+		// a stream that ends inside a message has no request term: judged by the monitors only
+		sc.cutRefused++
+	} else {
+		sc.trace = append(sc.trace, fmt.Sprintf("(mk_req %d %d %s, mk_obs %s %s %s)", absNow, height, o.term, verdict, obsRev, obsPrices))
 	}
-	sc.steps = append(sc.steps, stepLog{Kind: o.kind, Mut: o.mut, Verdict: verdict, Detail: detail})
+	sc.steps = append(sc.steps, stepLog{Kind: o.kind, Mut: o.mut, Verdict: verdict, Detail: diag})
 }
 
 func contains(l []string, s string) bool {
@@ -493,7 +568,7 @@ func (sc *scen) judgeCall(o *outcome, c call, where string) {
 		return
 	}
 	prev, rev := ct.rev, c.Rev
-	sc.judgeRevisable(ct, c, where)
+	betweenPhases := sc.judgeRevisable(ct, c, where)
 	if rev.RevisionNumber <= prev.RevisionNumber {
 		sc.failf("c08-revnum-not-increasing", "%s: %s with revision number %d after %d", where, c.Kind, rev.RevisionNumber, prev.RevisionNumber)
 	}
@@ -551,7 +626,7 @@ func (sc *scen) judgeCall(o *outcome, c call, where string) {
 	if c.HasRoots && !sameRoots(c.Roots, roots) {
 		sc.failf("c08-storage-fields-wrong", "%s: revision %d: the root list handed to the Contractor differs from the ground truth", where, rev.RevisionNumber)
 	}
-	if c.Err == nil {
+	if c.Err == nil && !betweenPhases {
 		sc.checkConsensus(ct, rev, where, true)
 	}
 }
@@ -562,9 +637,36 @@ func (sc *scen) judgeCall(o *outcome, c call, where string) {
 // consensus accepts no further revision, so a revision (or renewal) the server
 // hands to the Contractor can never be the host's "latest revision acceptable to
 // consensus".
-func (sc *scen) judgeRevisable(ct *ctr, c call, where string) {
+// afterMine: contracts of the scenario that a block has put on chain are confirmed.
+func (sc *scen) afterMine(where string) {
+	for _, ct := range sc.cts {
+		if ct.confirmed {
+			continue
+		}
+		_, fce, err := sc.w.ec.V2FileContractElement(ct.id)
+		if err != nil {
+			sc.failf("c08-new-contract-not-confirmed", "%s: contract %d is not on chain after a block: %v", where, ct.abs, err)
+			continue
+		}
+		ct.confirmed = true
+		if fce.V2FileContract != ct.formed {
+			sc.failf("c08-new-contract-not-confirmed", "%s: the confirmed contract %d differs from the one the host stored", where, ct.abs)
+		}
+	}
+}
+
+func (sc *scen) judgeRevisable(ct *ctr, c call, where string) (betweenPhases bool) {
 	tip := sc.w.cm.Tip().Height
+	sc.w.rec.mu.Lock()
+	lockTip, locked := sc.w.rec.lockTip[ct.id]
+	sc.w.rec.mu.Unlock()
 	switch {
+	case !ct.renewed && tip >= ct.rev.ProofHeight && locked && lockTip < ct.rev.ProofHeight:
+		// the proof height was reached while the handler held the lock (a renter that
+		// stalls its second message until a block arrives)
+		sc.failf("c08-revision-after-block-between-phases", "%s: the contract was revisable when it was locked (tip %d, proof height %d) but the tip was %d when the server signed and submitted %s (revision %d): consensus accepts no revision in a block of height %d (Contractor said: %v)",
+			where, lockTip, ct.rev.ProofHeight, tip, c.Kind, c.Rev.RevisionNumber, tip+1, c.Err)
+		return true
 	case ct.renewed:
 		sc.failf("c08-revision-of-unrevisable-contract", "%s: the server signed and submitted %s (revision %d) for contract %d, which has been renewed: the on-chain element is resolved (Contractor said: %v)",
 			where, c.Kind, c.Rev.RevisionNumber, ct.abs, c.Err)
@@ -572,6 +674,7 @@ func (sc *scen) judgeRevisable(ct *ctr, c call, where string) {
 		sc.failf("c08-revision-of-unrevisable-contract", "%s: the server signed and submitted %s (revision %d) for contract %d at tip height %d, its proof height is %d: consensus accepts no revision in a block of height %d (Contractor said: %v)",
 			where, c.Kind, c.Rev.RevisionNumber, ct.abs, tip, ct.rev.ProofHeight, tip+1, c.Err)
 	}
+	return false
 }
 
 func sameRoots(a, b []types.Hash256) bool {
@@ -976,6 +1079,48 @@ func runC08(c *hx.Ctx) {
 			}
 			p.Steps = append(p.Steps, planStep{Kind: "latest", Mut: "none"})
 		}
+		switch {
+		case i == 8:
+			// RPCs on contracts that are not on chain yet: a renewal needs the element
+			p.Flavor, p.Late, p.Settings = "rich", true, ""
+			p.Steps = []planStep{{Kind: "form", Mut: "none"}, {Kind: "append", Mut: "none"}, {Kind: "fund", Mut: "none"}, {Kind: "renew", Mut: "none"},
+				{Kind: "refresh-full", Mut: "none"}, {Kind: "roots", Mut: "none"}, {Kind: "latest", Mut: "none"}, {Kind: "mine", Mut: "none"}, {Kind: "latest", Mut: "none"},
+				{Kind: "renew", Mut: "none"}, {Kind: "append", Mut: "none"}, {Kind: "refresh-partial", Mut: "none"}, {Kind: "free", Mut: "none"},
+				{Kind: "mine", Mut: "none"}, {Kind: "refresh-partial", Mut: "none"}, {Kind: "mine", Mut: "none"}, {Kind: "latest", Mut: "none"}}
+		case i == 9:
+			// two live contracts of one renter, used alternately
+			p.Flavor, p.Late, p.Settings = "rich", false, ""
+			p.Steps = []planStep{{Kind: "form", Mut: "none"}, {Kind: "append", Mut: "none"}, {Kind: "form", Mut: "none"}, {Kind: "append", Mut: "none"}}
+			for _, k := range revisingKinds {
+				p.Steps = append(p.Steps, planStep{Kind: "switch", Mut: "none"}, planStep{Kind: k, Mut: "none"})
+			}
+			p.Steps = append(p.Steps, planStep{Kind: "switch", Mut: "none"}, planStep{Kind: "replenish-accounts", Mut: "none", Inner: &planStep{Kind: "fund", Mut: "none"}},
+				planStep{Kind: "switch", Mut: "none"}, planStep{Kind: "latest", Mut: "none"})
+		case i >= 10 && i <= 14:
+			// every settings variant on every run
+			p.Settings = []string{"free", "one-hasting", "dear", "tight", "zero-collateral-limit"}[i-10]
+			if p.Flavor == "closed" {
+				p.Flavor = "rich"
+			}
+		case i == 15:
+			// every cut point of every RPC
+			p.Flavor, p.Late, p.Settings = "rich", false, ""
+			p.Steps = []planStep{{Kind: "form", Mut: "none"}, {Kind: "append", Mut: "none"}, {Kind: "append", Mut: "none"}, {Kind: "fund", Mut: "none"}}
+			for _, k := range append([]string{"form"}, revisingKinds...) {
+				for _, m := range kindMuts[k] {
+					if strings.HasPrefix(m, "cut-") {
+						p.Steps = append(p.Steps, planStep{Kind: k, Mut: m})
+					}
+				}
+			}
+			p.Steps = append(p.Steps, planStep{Kind: "append", Mut: "none"}, planStep{Kind: "latest", Mut: "none"})
+		case i >= 16 && i <= 19 && os.Getenv("VERIF_C08_BLOCK_BETWEEN_PHASES") == "1":
+			// opt-in (see checks/C08.json): the tip reaches the proof height while a
+			// two-phase revising RPC waits for the renter's signature
+			p.Flavor, p.Late, p.Settings = "short", false, ""
+			p.Steps = []planStep{{Kind: "form", Mut: "none"}, {Kind: "append", Mut: "none"}, {Kind: "append", Mut: "none"}, {Kind: "fund", Mut: "none"},
+				{Kind: "expire", Mut: "ph-1"}, {Kind: twoPhaseKinds[i-16], Mut: "none", Inner: &planStep{Kind: "expire", Mut: "none"}}, {Kind: "latest", Mut: "none"}}
+		}
 		res, dnc := e.run(p)
 		if dnc != nil {
 			c.Res.Count("scenario-did-not-complete")
@@ -989,9 +1134,12 @@ func runC08(c *hx.Ctx) {
 		cases = append(cases, fmt.Sprintf("mk_case %s [\n  %s]", res.cfg, strings.Join(sc.trace, ";\n  ")))
 		c.Res.Eval(strings.Join(sc.trace, "|"), sc.accepted > 0 && sc.rejectedCorrupt > 0)
 		c.Res.Count("flavor:" + p.Flavor)
-		if sc.unclassified > 0 {
-			c.Res.CountN("refusal-of-unknown-wording", sc.unclassified)
+		c.Res.Count("settings:" + map[bool]string{true: "default", false: p.Settings}[p.Settings == ""])
+		if p.Late {
+			c.Res.Count("late-confirmation-scenarios")
 		}
+		c.Res.CountN("mix:second-live-contract", sc.second)
+		c.Res.CountN("cut:refused-monitor-only", sc.cutRefused)
 		for _, st := range sc.steps {
 			c.Res.Count("rpc:" + st.Kind)
 			c.Res.Count("verdict:" + st.Verdict)
